@@ -181,6 +181,41 @@ func (e *Engine) checkLinkHelpers(r *Report, rule string) {
 		dl := e.findInstrs(fn, "builtin(delete)(p0.byFile, invoke(sts.Hashed.GetName)(p1.orig))", false)
 		r.Check(ok && len(dl) == 1, rule, "queue.(*Tagged).removeFile: head moves to the successor only when the head is removed; the file leaves the index", e.Pos(fn.Pos()), "removing a file no longer keeps head and index consistent", 2)
 	}
+	// the typed wrappers delegate to the helper of the SAME name with (receiver, argument)
+	nw := 0
+	for _, fn := range e.FuncsIn("queue") {
+		recv := fn.Signature.Recv()
+		if recv == nil || fn.Parent() != nil {
+			continue
+		}
+		tn := e.typeShort(recv.Type())
+		if tn != "*queue.sortedGroup" && tn != "*queue.sortedFile" {
+			continue
+		}
+		helper := ""
+		for _, h := range []string{"addAfter", "addBefore", "insertAfter", "insertBefore", "unlink"} {
+			if fn.Name() == h {
+				helper = h
+			}
+		}
+		if helper == "" {
+			continue
+		}
+		nw++
+		args := "p0, p1"
+		if helper == "unlink" {
+			args = "p0"
+		}
+		calls := e.findInstrs(fn, "call(queue.«[A-Za-z]+»)(§)", false)
+		ok := len(calls) == 1 && e.InstrStr(calls[0]) == "call(queue."+helper+")("+args+")"
+		var got []string
+		for _, c := range calls {
+			got = append(got, e.InstrStr(c))
+		}
+		r.Check(ok, rule, e.ShortName(fn)+" delegates to "+helper+"("+args+")", e.Pos(fn.Pos()),
+			"the typed wrapper calls another helper than its name says (e.g. an insert that does not unlink first leaves the old neighbours pointing at the moved node): "+strings.Join(got, "; "), 1, got...)
+	}
+	r.Min(rule, "typed wrappers of the link helpers", nw, 4)
 }
 
 func ast_IsExported(name string) bool { return name != "" && name[0] >= 'A' && name[0] <= 'Z' }
